@@ -81,6 +81,7 @@ structure FileSt where
   slots : List (List Msg) := []            -- contents per container slot (single slots: ≤ 1 message)
   unkM : Option (List (Nat × Nat)) := none            -- nil until handleUnknownMessages ran
   unkF : Option (List (Nat × Nat × Nat)) := none
+  xlog : List (Msg × Globals) := []      -- ghost: messages as they reached `expandComponents`, with the accumulators then
 deriving Repr, Inhabited
 
 structure DecSt where
